@@ -579,7 +579,9 @@ def main(tier, seed):
         PID, tier, seed, agg, t0,
         rule=(f"all {len(pairs)} ordered operator pairs x all triples over "
               f"{len(ops)} operands (flat text, grouping from an "
-              f"independent precedence-climbing parser); unary/binary "
+              f"independent precedence-climbing parser); every operator "
+              f"incl. in/not in x every ordered pair of {len(WIDE)} wide-pool "
+              f"operands; unary/binary "
               f"combinations for {len(BINOPS)} operators; all "
               f"{len(shapes)} typed tree shapes with <= {maxops} operators "
               f"(minimal and full parentheses); all pairs of {len(INTS)} "
